@@ -6,6 +6,7 @@ change the exit status, which always speaks about /repo.
 """
 import concurrent.futures
 import json
+import time
 import os
 import shutil
 import subprocess
@@ -103,9 +104,15 @@ def run(c, pid, seed):
         for s in free:
             q.put(s)
 
+        t0 = time.time()
+        budget = float(os.environ.get('VERIF_SELF_BUDGET_S', '2400'))
+
         def job(e):
             s = q.get()
             try:
+                if time.time() - t0 > budget:
+                    # a cold cache and a large catalogue: what was not reached is listed as skipped, never guessed
+                    return {'id': e['id'], 'status': 'skipped: time budget of the thorough run (VERIF_SELF_BUDGET_S) used up'}
                 return _one(e, pid, s, base_keys, th)
             finally:
                 q.put(s)
